@@ -329,7 +329,7 @@ impl Prop for CallBound {
                 BoundCase::Static(ProblemCase { gc: GraphCase { g, pres }, sem, q, enc_pick, arg, cert })
             });
         let dynpr = (0u8..FACTORS.len() as u8, vec(dynamic::op_strategy(false), 5..=maxlen))
-            .prop_map(|(factor, ops)| BoundCase::DynamicPr(DynCase { kind: DynKind::Pr, factor, ops }));
+            .prop_map(|(factor, ops)| BoundCase::DynamicPr(DynCase { kind: DynKind::Pr, factor, ops, groups: 1 }));
         let script = crate::checks::config::Config.small_strategy(tier).prop_map(BoundCase::Script);
         prop_oneof![70 => stat, 15 => dynpr, 15 => script].boxed()
     }
